@@ -84,6 +84,18 @@ fn new_session<'p>(arena: &'p Arena, h: &History) -> Session<'p> {
     sess.add_search_path(PathBuf::from("j"));
     sess.add_native_func("id", &["x"], |_, [x]| Ok(x.clone()));
     sess.add_native_func("fail", &["x"], |_, [_x]| Err("asked to fail".into()));
+    sess.add_native_func("picky", &["x"], |_, [x]| match (x.as_number(), x.as_bool()) {
+        (Some(n), _) if n > 0.0 => Ok(x.clone()),
+        (_, Some(true)) => Ok(x.clone()),
+        _ => Err("picky refuses this argument".into()),
+    });
+    // what the lang-mode simulator offers under these names does not exist here; plain pass-through keeps programs alive
+    sess.add_native_func("gcNow", &["x"], |p, [x]| {
+        p.gc();
+        Ok(x.clone())
+    });
+    sess.add_native_func("tryOther", &["x"], |_, [x]| Ok(x.clone()));
+    sess.add_native_func("evalOther", &["x"], |_, [x]| Ok(x.clone()));
     for (name, is_code, text) in &h.world.ext {
         let thunk = if *is_code {
             sess.load_virt_file(&format!("<ext:{name}>"), text.clone().into_bytes())
